@@ -364,6 +364,14 @@ func (fr *frame) unop(b *ssa.BasicBlock, in *ssa.UnOp, reach Term, h Heap) Heap 
 	return h
 }
 
+// wrapIf: machine arithmetic in code, mathematical integers in specifications.
+func (x *Enc) wrapIf(code bool, t types.Type, e Term) Term {
+	if !code {
+		return e
+	}
+	return x.wrap(t, e)
+}
+
 func (x *Enc) wrap(t types.Type, e Term) Term {
 	isInt, signed, bits := intRange(t)
 	if !isInt {
@@ -475,11 +483,11 @@ func (x *Enc) binop(fr *frame, b *ssa.BasicBlock, op token.Token, a, c Val, ta, 
 	}
 	switch op {
 	case token.ADD:
-		return one(x.wrap(tr, app("+", l, r)))
+		return one(x.wrapIf(fr != nil, tr, app("+", l, r)))
 	case token.SUB:
-		return one(x.wrap(tr, app("-", l, r)))
+		return one(x.wrapIf(fr != nil, tr, app("-", l, r)))
 	case token.MUL:
-		return one(x.wrap(tr, app("*", l, r)))
+		return one(x.wrapIf(fr != nil, tr, app("*", l, r)))
 	case token.QUO:
 		if fr != nil {
 			fr.safety(b, "div-zero", pos, reach, not(eq(r, "0")))
